@@ -25,6 +25,13 @@ ALL = ['C04', 'C07', 'C08', 'C11', 'C20']
 def main(what, ids):
     if what == 'digests':     # internal: print {index: digest} for a range, used by the determinism test
         return st_digests(ids)
+    if what == 'digests_of':  # internal: digests of the run indices in $VERIF_IDX (used by the hashseed sample)
+        idxs = json.loads(os.environ['VERIF_IDX'])
+        base = int(os.environ.get('VERIF_BASE', '0'))
+        tot = kernel.run_batch(ids[0], [(base, i) for i in idxs], os.environ.get('VERIF_TIERX', 'quick'), chunk=40,
+                               opts={'digests': True, 'stop_on_violation': False})
+        print('DIGESTS ' + json.dumps({str(k): v for k, v in tot['digests'].items()}))
+        return 0
     ids = [i for i in (ids or ALL) if _has(i)]
     if what == 'import':
         return st_import()
